@@ -3,6 +3,7 @@
    query-field score and scatters them back; the spec adds WHOLE-FRAME phrase scores at those rows. *)
 From Coq Require Import ZArith QArith List.
 From SA Require Import Base.Prelude Index.Index View.View Solr.MM Solr.Edismax Solr.Edismax_Spec Solr.Edismax_Proofs.
+From SA Require Import View.View_Phrase2 Solr.Edismax_Indexed.
 Import ListNotations.
 
 (* view_commutes_all is property C06 for a mask key: scoring the view of matching rows = gathering the
@@ -23,3 +24,15 @@ Print Assumptions C10_shingles2_each_once.
 Theorem C10_shingles3_each_once : forall ts,
   shingles3 ts = map (fun i => [nth i ts 0%N; nth (S i) ts 0%N; nth (S (S i)) ts 0%N]) (seq 0 (length ts - 2)).
 Proof. exact shingles3_spec. Qed.
+
+(* ================= premise-free, for frames of freshly indexed columns =================
+   The view-commutation premise is PROVED at exactly the term lists the phases score (whole phrase, 2-shingles,
+   3-shingles) when no phrase field's term list has an immediately repeated term (query_nar, a boolean);
+   qf_calls_ok and select_ok are proved for fresh fields (Solr/Edismax_Indexed.v). *)
+Theorem C10_indexed_phrase_boosts : forall idf n q, wf_query idf n q -> fresh_fields n q -> query_nar q ->
+  api_veq (edismax idf n q) (edismax_spec idf n q).
+Proof. exact C10_indexed. Qed.
+Print Assumptions C10_indexed_phrase_boosts.
+(* the hypotheses are satisfiable: 2 fields, 3 terms, pf + boosted pf2 + pf3, and the phases change the result *)
+Example C10_indexed_nonvacuous : api_veq (edismax Ex.idf 4 Ex.q) (edismax_spec Ex.idf 4 Ex.q).
+Proof. exact Ex.agree. Qed.
